@@ -43,7 +43,10 @@ that completes, and `new` at the last boundary).
   obs / has as above;  readable <v> <t> <h> <0|1>   (only for roots the DB claims to have)
   nodes <v> <t> <h> <n> <visible ids|->   GetNode under the reported root (v,t,h) for EVERY node id 1..n
 The model must predict every result, every observer and exactly which claimed roots read back
-completely.  When model and implementation agree that a claimed root is unreadable the answer is
+completely.  A commit / finalize / prune that takes effect but violates its safety predicate
+(`Badger.commitSafe` / `finalizeSafe` / `pruneSafe`, the restriction of `badger_readable_inv_partial`)
+is answered `ok unsafe=<kind>`: dbdrv requires that no reported root is unreadable before the first
+such step of a history.  When model and implementation agree that a claimed root is unreadable the answer is
 `ok note=<cause>`, naming the bookkeeping rule that deleted the missing node.
 
 ### mode spec — one line per operation / observation of a REAL backend
@@ -301,7 +304,11 @@ def badgerStep (st : BSt) (line : String) : BSt × String :=
             fail s!"commit-hyp new tree has a node that is neither inherited nor put: new={clNew} old={clOld} added={addedH}"
           else if !removed.all (fun n => !clNew.contains n || addedH.contains n) then
             fail s!"commit-hyp removed node still in the new tree without being put again: removed={removed} new={clNew}"
-          else ({ st with s := s', kids := kids', kidsV := kidsV' }, "ok")
+          else
+            -- classification by the restriction of `badger_readable_inv_partial`
+            let created := !Badger.hasKey (s.rmeta v) (t, h)
+            let safe := !created || Badger.commitSafe (closure kids') s new addedH
+            ({ st with s := s', kids := kids', kidsV := kidsV' }, if safe then "ok" else "ok unsafe=commit")
     | _, _, _, _, _, _, _ => fail "bad-op"
   | ["finalize", v, chosen, res] =>
     match v.toNat? with
@@ -322,7 +329,8 @@ def badgerStep (st : BSt) (line : String) : BSt × String :=
         let cs := p.dels.map (fun h => (h, v,
           if removedByFin.contains h then "finalize:removed-by-a-finalized-root-but-used-by-another-kept-root"
           else "finalize:put-by-a-discarded-root-but-inherited-by-a-kept-root"))
-        ({ st with s := s', causes := cs ++ st.causes }, "ok")
+        let safe := Badger.finalizeSafe (closure st.kids) s v chosen
+        ({ st with s := s', causes := cs ++ st.causes }, if safe then "ok" else "ok unsafe=finalize")
   | ["prune", v, res] =>
     match v.toNat? with
     | none => fail "bad-op"
@@ -340,7 +348,8 @@ def badgerStep (st : BSt) (line : String) : BSt × String :=
         if res != "ok" then fail s!"prune-result-mismatch impl={res} model=ok" else
         let dels := Badger.pruneDels clv s v
         let cs := dels.map (fun h => (h, v, "prune:lone-root-deletes-node-shared-with-a-later-root"))
-        ({ st with s := s', causes := cs ++ st.causes }, "ok")
+        let safe := Badger.pruneSafe cl clv s v
+        ({ st with s := s', causes := cs ++ st.causes }, if safe then "ok" else "ok unsafe=prune")
   | ["reopen"] => (st, "ok")
   | ["obs", latest, earliest, roots] =>
     match earliest.toNat?, parseVTHs roots with
